@@ -320,6 +320,22 @@ func (p *Prog) Name(f *ssa.Function) string {
 // Fn looks a module function up by short name ("ergo.withLock"); nil if absent.
 func (p *Prog) Fn(name string) *ssa.Function { return p.byName[name] }
 
+// FnImpl: the function of that full name, or - when the name survives only as a thin or defaulting wrapper
+// ((*PlanInput).Validate() = p.validate(defaultLimit)) - the implementation behind it.
+func (p *Prog) FnImpl(name string) *ssa.Function {
+	f := p.byName[name]
+	if f == nil {
+		return nil
+	}
+	if impl := p.implOf[f]; impl != nil {
+		return impl
+	}
+	if impl := p.defaultOf[f]; impl != nil {
+		return impl
+	}
+	return f
+}
+
 // ErgoFn looks up a package-level function of internal/ergo by identifier.
 func (p *Prog) ErgoFn(ident string) *ssa.Function {
 	f := p.byName["ergo."+ident]
@@ -525,6 +541,9 @@ func defaultingWrapperTarget(p *Prog, f *ssa.Function) *ssa.Function {
 			next++
 		case *ssa.Const:
 		case *ssa.UnOp:
+			if _, isGlobal := x.X.(*ssa.Global); isGlobal && x.Op == token.MUL {
+				continue // a package-level default (defaultBodyLimit)
+			}
 			al, ok := x.X.(*ssa.Alloc)
 			if !ok || x.Op != token.MUL {
 				return nil
